@@ -91,28 +91,77 @@ func vpServes(env *vpEnv, hd, hx uint64, tag string) {
 	vpAssert(rw.u32() == NFS_OK, tag+"-write-served")
 }
 
+// Field groups of VPH_C24_export_update: the fields of one group are symbolic, the others hold fixed
+// positive non-default values. UpdateTuningOptions treats every field independently (one
+// comparison per field), so all fields symbolic at once only multiplies paths (2^21 sign
+// combinations); group 5 covers the simultaneous cases users actually hit: every field zero
+// (ExportOptions{}) or every field negative.
+const (
+	vpC24GCache = iota
+	vpC24GDirPool
+	vpC24GConn
+	vpC24GTimeoutsA
+	vpC24GTimeoutsB
+	vpC24GAll
+)
+
+func vpC24Int(sym bool, all int, name string, fixed int) int {
+	if sym {
+		return vpSmallInt(name)
+	}
+	if all != 0 {
+		return all - 1 // 0 or -1
+	}
+	return fixed
+}
+
+func vpC24Dur(sym bool, all int, name string, fixed time.Duration) time.Duration {
+	if sym {
+		return vpDur(name)
+	}
+	if all != 0 {
+		return time.Duration(all - 1)
+	}
+	return fixed
+}
+
+func vpC24Timeout(sym bool, all int, name string, fixed time.Duration) time.Duration {
+	if sym {
+		return vpTimeoutDur(name)
+	}
+	if all != 0 {
+		return time.Duration(all - 1)
+	}
+	return fixed
+}
+
 func VPH_C24_export_update() {
 	fs := vpStdTree()
 	env := vpServer(fs, ExportOptions{Squash: "root"})
 	hd, hx := env.handleFor("/d"), env.handleFor("/d/x")
 	before := env.nfs.GetExportOptions()
 
+	g := vpChoose("group", vpC24GCache, vpC24GAll)
+	all := 0
+	if g == vpC24GAll {
+		all = vpChoose("all", 1, 2) // 1: every numeric field 0, 2: every numeric field -1
+	}
 	n := ExportOptions{
 		ReadOnly: false, Secure: vpBool("secure"), Async: vpBool("async"),
 		MaxFileSize:          vpI64("maxfilesize"),
-		TransferSize:         vpSmallInt("transfersize"),
-		AttrCacheTimeout:     vpDur("attrcachetimeout"),
-		AttrCacheSize:        vpSmallInt("attrcachesize"),
+		TransferSize:         vpC24Int(g == vpC24GCache, all, "transfersize", 4096),
+		AttrCacheTimeout:     vpC24Dur(g == vpC24GCache, all, "attrcachetimeout", 7*time.Second),
+		AttrCacheSize:        vpC24Int(g == vpC24GCache, all, "attrcachesize", 77),
 		CacheNegativeLookups: vpBool("negative"),
-		NegativeCacheTimeout: vpDur("negativetimeout"),
-		DirCacheTimeout:      vpDur("dircachetimeout"),
-		DirCacheMaxEntries:   vpSmallInt("dircachemaxentries"),
-		DirCacheMaxDirSize:   vpSmallInt("dircachemaxdirsize"),
-		MaxWorkers:           vpSmallInt("maxworkers"),
-		MaxConnections:       vpSmallInt("maxconnections"),
-		IdleTimeout:          vpDur("idletimeout"),
-		SendBufferSize:       vpSmallInt("sendbuffer"),
-		ReceiveBufferSize:    vpSmallInt("recvbuffer"),
+		NegativeCacheTimeout: vpC24Dur(g == vpC24GCache, all, "negativetimeout", 3*time.Second),
+		DirCacheTimeout:      vpC24Dur(g == vpC24GDirPool, all, "dircachetimeout", 11*time.Second),
+		DirCacheMaxEntries:   vpC24Int(g == vpC24GDirPool, all, "dircachemaxentries", 55),
+		DirCacheMaxDirSize:   vpC24Int(g == vpC24GDirPool, all, "dircachemaxdirsize", 66),
+		MaxWorkers:           vpC24Int(g == vpC24GDirPool, all, "maxworkers", 3),
+		MaxConnections:       vpC24Int(g == vpC24GConn, all, "maxconnections", 9),
+		IdleTimeout:          vpC24Dur(g == vpC24GConn, all, "idletimeout", time.Minute),
+		SendBufferSize:       vpC24Int(g == vpC24GConn, all, "sendbuffer", 8192),
+		ReceiveBufferSize:    vpC24Int(g == vpC24GConn, all, "recvbuffer", 8192),
 		TCPKeepAlive:         vpBool("keepalive"), TCPNoDelay: vpBool("nodelay"),
 	}
 	switch vpChoose("squash", 0, 2) {
@@ -123,10 +172,23 @@ func VPH_C24_export_update() {
 	case 2:
 		n.Squash = "all" // a change: must be rejected as a whole
 	}
-	if vpBool("with-timeouts") {
-		n.Timeouts = &TimeoutConfig{ReadTimeout: vpTimeoutDur("t.read"), WriteTimeout: vpTimeoutDur("t.write"), LookupTimeout: vpTimeoutDur("t.lookup"),
-			ReaddirTimeout: vpTimeoutDur("t.readdir"), CreateTimeout: vpTimeoutDur("t.create"), RemoveTimeout: vpTimeoutDur("t.remove"),
-			RenameTimeout: vpTimeoutDur("t.rename"), HandleTimeout: vpTimeoutDur("t.handle"), DefaultTimeout: vpTimeoutDur("t.default")}
+	withTimeouts := true
+	if vpAnd(g != vpC24GTimeoutsA, g != vpC24GTimeoutsB) {
+		withTimeouts = vpBool("with-timeouts")
+	}
+	if withTimeouts {
+		a, b := g == vpC24GTimeoutsA, g == vpC24GTimeoutsB
+		n.Timeouts = &TimeoutConfig{
+			ReadTimeout:    vpC24Timeout(a, all, "t.read", 2*time.Second),
+			WriteTimeout:   vpC24Timeout(a, all, "t.write", 2*time.Second),
+			LookupTimeout:  vpC24Timeout(a, all, "t.lookup", 2*time.Second),
+			DefaultTimeout: vpC24Timeout(a, all, "t.default", 2*time.Second),
+			ReaddirTimeout: vpC24Timeout(b, all, "t.readdir", 2*time.Second),
+			CreateTimeout:  vpC24Timeout(b, all, "t.create", 2*time.Second),
+			RemoveTimeout:  vpC24Timeout(b, all, "t.remove", 2*time.Second),
+			RenameTimeout:  vpC24Timeout(b, all, "t.rename", 2*time.Second),
+			HandleTimeout:  vpC24Timeout(b, all, "t.handle", 2*time.Second),
+		}
 	}
 	err := env.nfs.UpdateExportOptions(n)
 	after := env.nfs.GetExportOptions()
@@ -135,8 +197,8 @@ func VPH_C24_export_update() {
 		vpAssert(n.Squash == "all", "only-squash-change-rejected")
 		vpKnown("K-C24-rejected-update-applies-tuning", true)
 		vpAssert(vpSameConfig(before, after), "rejected-update-leaves-configuration-unchanged")
-		vpKnownClear()
 		vpServes(env, hd, hx, "after-rejected")
+		vpKnownClear()
 		return
 	}
 	vpReach("accepted")
@@ -155,9 +217,16 @@ func VPH_C24_export_update() {
 	vpAssert(after.ReceiveBufferSize == vpDefInt(n.ReceiveBufferSize, 262144), "recvbuffer-defaulted")
 	vpAssert(after.Timeouts != nil, "timeouts-present")
 	if after.Timeouts != nil && n.Timeouts != nil {
-		vpAssert(after.Timeouts.ReadTimeout == vpDefDur(n.Timeouts.ReadTimeout, 30*time.Second), "readtimeout-defaulted")
-		vpAssert(after.Timeouts.LookupTimeout == vpDefDur(n.Timeouts.LookupTimeout, 10*time.Second), "lookuptimeout-defaulted")
-		vpAssert(after.Timeouts.DefaultTimeout == vpDefDur(n.Timeouts.DefaultTimeout, 30*time.Second), "defaulttimeout-defaulted")
+		at, nt := after.Timeouts, n.Timeouts
+		vpAssert(at.ReadTimeout == vpDefDur(nt.ReadTimeout, 30*time.Second), "readtimeout-defaulted")
+		vpAssert(at.WriteTimeout == vpDefDur(nt.WriteTimeout, 60*time.Second), "writetimeout-defaulted")
+		vpAssert(at.LookupTimeout == vpDefDur(nt.LookupTimeout, 10*time.Second), "lookuptimeout-defaulted")
+		vpAssert(at.DefaultTimeout == vpDefDur(nt.DefaultTimeout, 30*time.Second), "defaulttimeout-defaulted")
+		vpAssert(at.ReaddirTimeout == vpDefDur(nt.ReaddirTimeout, 30*time.Second), "readdirtimeout-defaulted")
+		vpAssert(at.CreateTimeout == vpDefDur(nt.CreateTimeout, 15*time.Second), "createtimeout-defaulted")
+		vpAssert(at.RemoveTimeout == vpDefDur(nt.RemoveTimeout, 15*time.Second), "removetimeout-defaulted")
+		vpAssert(at.RenameTimeout == vpDefDur(nt.RenameTimeout, 20*time.Second), "renametimeout-defaulted")
+		vpAssert(at.HandleTimeout == vpDefDur(nt.HandleTimeout, 5*time.Second), "handletimeout-defaulted")
 	}
 	vpKnownClear()
 	// what GetExportOptions reports is what the handlers read
